@@ -102,6 +102,8 @@ func checkC17(c *Ctx) {
 	c.queueIndexRules()
 	c.growRules()
 	c.occupancyByCount()
+	// a forwarded packet is copied from the incoming ring: the ring space is released only after the handler ran
+	c.commitAfterUse()
 	// one processor goroutine per connection, started once, outside any loop
 	ngo := 0
 	inLoop := false
